@@ -263,7 +263,7 @@ fn mutations(t: &Tree) -> Vec<Value> {
             for j in 0..l {
                 out.push(json!({"m": "kid_insert", "node": i, "pos": pos, "what": "dup", "arg": j}));
             }
-            for what in ["self", "int", "dict", "dangling", "null", "catalog"] {
+            for what in ["self", "int", "dict", "dangling", "null", "catalog", "page_stream", "pages_stream", "ref_to_int", "ref_to_array"] {
                 out.push(json!({"m": "kid_insert", "node": i, "pos": pos, "what": what}));
             }
         }
@@ -276,7 +276,7 @@ fn mutations(t: &Tree) -> Vec<Value> {
                     out.push(json!({"m": "kid_replace", "node": i, "pos": pos, "what": "dup", "arg": j}));
                 }
             }
-            for what in ["self", "int", "dict", "dangling", "null", "catalog"] {
+            for what in ["self", "int", "dict", "dangling", "null", "catalog", "page_stream", "pages_stream", "ref_to_int", "ref_to_array"] {
                 out.push(json!({"m": "kid_replace", "node": i, "pos": pos, "what": what}));
             }
         }
@@ -349,6 +349,25 @@ fn apply_mutation(t: &Tree, b: &mut Built, m: &Value) {
                 "dangling" => dangling,
                 "null" => Object::Null,
                 "catalog" => Object::Reference(b.cat),
+                // indirect objects of the wrong kind that nevertheless claim a page-tree type
+                "page_stream" | "pages_stream" | "ref_to_int" | "ref_to_array" => {
+                    let id = (b.doc.max_id + 1, 0);
+                    b.doc.max_id += 1;
+                    let o = match what {
+                        "page_stream" => Object::Stream(lopdf::Stream::new(page.clone(), b"q Q".to_vec())),
+                        "pages_stream" => {
+                            let mut d = Dictionary::new();
+                            d.set("Type", name("Pages"));
+                            d.set("Kids", Object::Array(vec![Object::Reference(b.node[i])]));
+                            d.set("Count", Object::Integer(1));
+                            Object::Stream(lopdf::Stream::new(d, vec![]))
+                        }
+                        "ref_to_int" => Object::Integer(7),
+                        _ => Object::Array(vec![Object::Dictionary(page.clone())]),
+                    };
+                    b.doc.objects.insert(id, o);
+                    Object::Reference(id)
+                }
                 _ => machinery("unknown kid mutation"),
             };
             let kids = kids_mut(b, i);
